@@ -211,6 +211,9 @@ pub fn verify_batch(
         .map(|_| Scalar::from(gen_u128(&mut rng)))
         .collect();
 
+    #[cfg(all(curve25519_dalek_verif, feature = "std"))]
+    verif::record_coefficients(&zs);
+
     // Compute the basepoint coefficient, ∑ s[i]z[i] (mod l)
     let B_coefficient: Scalar = signatures
         .iter()
@@ -237,5 +240,24 @@ pub fn verify_batch(
         Ok(())
     } else {
         Err(InternalError::Verify.into())
+    }
+}
+
+/// Verification hook (only with `--cfg curve25519_dalek_verif`): the batch coefficients of the last call.
+#[cfg(all(curve25519_dalek_verif, feature = "std"))]
+pub mod verif {
+    use super::*;
+    use std::sync::Mutex;
+
+    static LAST: Mutex<Vec<[u8; 32]>> = Mutex::new(Vec::new());
+
+    pub(super) fn record_coefficients(zs: &[Scalar]) {
+        if let Ok(mut g) = LAST.lock() {
+            *g = zs.iter().map(|z| z.to_bytes()).collect();
+        }
+    }
+    /// The random coefficients z_i drawn by the most recent `verify_batch` call (cleared by reading).
+    pub fn take_batch_coefficients() -> Vec<[u8; 32]> {
+        LAST.lock().map(|mut g| core::mem::take(&mut *g)).unwrap_or_default()
     }
 }
